@@ -775,7 +775,7 @@ fn start_incarnation(
 ) -> Incarnation {
     let k = &sc.knobs;
     let truth: SharedTruth = Arc::new(std::sync::Mutex::new(Truth::default()));
-    let lifecycle = SimLifecycle { truth: truth.clone(), commanders: Default::default(), late_commanders: Default::default(), remote_host: k.remote_host, fail_on_multiple_of: k.fail_on_multiple_of };
+    let lifecycle = SimLifecycle { truth: truth.clone(), commanders: Default::default(), late_commanders: Default::default(), remote_host: k.remote_host, fail_on_multiple_of: k.fail_on_multiple_of, send_on_stop: k.send_on_stop };
     let model = if k.initial_contents {
         AgentModel::new(SimAgent::with_initial_contents, lifecycle.into_lifecycle())
     } else {
